@@ -102,6 +102,28 @@ def one_run(ctx, drv, rng):
         arr = sorted(round(rng.uniform(0, params["duration"] * 1.2), 2) for _ in range(n))
         workload = CSVWorkloadReader(io.StringIO(csv_text([str(a) for a in arr]))).get_workload(tps)
         ctx.sit("trace_workload_empty" if n == 0 else "trace_workload")
+    elif kind < 0.4 and params["duration"] >= 2:
+        # hand-built DAGs with several sinks of different lengths (and a join now and then): with single-operator containers the sinks end in
+        # different containers at different ticks, and the pipeline is complete only with the last of them
+        import det_run
+        if algo != "priority-pool":
+            params["multi_operator_containers"] = rng.random() < 0.25
+        pipes = []
+        for _ in range(rng.randint(1, 4)):
+            nsink = rng.randint(2, 4)
+            ops = [{"parents": [], "ticks": rng.randint(1, 2), "mem": 1}]
+            for k in range(nsink):
+                ops.append({"parents": [0], "ticks": rng.randint(1, 3) + 2 * k, "mem": rng.choice([1, 2])})
+            if rng.random() < 0.3:
+                ops.append({"parents": [1, 2], "ticks": rng.randint(1, 3), "mem": 1})
+            pipes.append({"prio": rng.choice([1, 2, 3]), "ops": ops})
+        nt = int(params["duration"] * tps)
+        arrivals = [[] for _ in range(nt)]
+        for k in range(len(pipes)):
+            arrivals[rng.randrange(max(1, nt // 2))].append(k)
+        spec = {"pipes": pipes, "arrivals": arrivals, "tps": tps}
+        workload = det_run.fixed_workload(spec)
+        ctx.sit("multi_sink_dag_workload")
     real = template_scheduler() if algo == "template" else algo
     try:
         stats, rec = layer_m.run_recorded(params, real, workload)
